@@ -287,6 +287,7 @@ func checkC05(r *Run) {
 			descr = append(descr, "prefix(Pre)")
 		}
 		// run pass by pass: attribute the first pass that breaks a reference
+		perPassFound := false
 		cur := schemas
 		for pi, pass := range passes {
 			var next ast.Schemas
@@ -305,6 +306,7 @@ func checkC05(r *Run) {
 			}
 			nd := newDangling(cur, next)
 			if len(nd) > 0 {
+				perPassFound = true
 				seen := map[string]bool{}
 				for _, p := range nd {
 					key := "transform/" + name + "/dangling-" + p.Kind + "/" + spellingClass(descr[min(pi, len(descr)-1)], cur)
@@ -318,6 +320,40 @@ func checkC05(r *Run) {
 			}
 			cur = next
 		}
+		// the same sequence in ONE Passes.Process call, as cog runs it: structure shared between the results of
+		// earlier passes is not un-shared by the deep copy each Process call starts with
+		was := map[string]bool{}
+		for _, p := range danglingRefs(schemas) {
+			was[p.Kind+"|"+p.Pkg+"."+p.Target] = true
+		}
+		reported := perPassFound // already attributed to one pass: the single-call run would only repeat it
+		withSink(func(site string, args ...any) {
+			if site != "pass.after" || reported {
+				return
+			}
+			pi := args[0].(int)
+			after := args[2].(ast.Schemas)
+			name := strings.TrimPrefix(strings.TrimPrefix(fmt.Sprintf("%T", args[1]), "*compiler."), "compiler.")
+			if rr, ok := args[1].(*compiler.ReplaceReference); ok && !hasObject(after, rr.To.Package, rr.To.Object) {
+				reported = true // outside the claim
+				return
+			}
+			for _, p := range danglingRefs(after) {
+				k := p.Kind + "|" + p.Pkg + "." + p.Target
+				if was[k] {
+					continue
+				}
+				was[k] = true
+				if reported {
+					continue
+				}
+				reported = true
+				r.Violation("transform-sequence/"+name+"/dangling-"+p.Kind, fmt.Sprintf("in one Passes.Process call, %s (pass #%d of %v) turns %s reference %s.%s (at %s) into a dangling one.\nIR after:\n%s", descr[min(pi, len(descr)-1)], pi, descr, p.Kind, p.Pkg, p.Target, p.Where, irSummary(after)), map[string]any{"passes": yamlDoc.String(), "prefix": usePrefix, "input_ir": mustJSON(schemas)})
+			}
+		}, func() {
+			guard(func() { _, _ = compiler.Passes(passes).Process(schemas) })
+		})
+		r.Eval()
 		r.Distinct("seq" + yamlDoc.String() + fmt.Sprint(c))
 		if c < 2 {
 			r.Sample(map[string]any{"sequence": descr})
